@@ -232,23 +232,8 @@ func (g *gen) write() {
 					name, args = "zremrangebyscore", []string{key, strconv.Itoa(lo), strconv.Itoa(lo + g.r.Intn(4))}
 				}
 			case "l":
-				// a list re-created with the version (= ts) of an earlier generation takes the
-				// fixListKey repair path, which the model does not cover: use a fresh timestamp
-				vk := "l/" + key
 				switch y := g.r.Intn(100); {
 				case y < 30, y < 60:
-					if ts != "Z" {
-						tv, _ := strconv.ParseInt(ts, 10, 64)
-						for g.vers[vk][tv] {
-							g.cur++
-							tv = g.cur
-						}
-						if g.vers[vk] == nil {
-							g.vers[vk] = map[int64]bool{}
-						}
-						g.vers[vk][tv] = true
-						ts = strconv.FormatInt(tv, 10)
-					}
 					name = "lpush"
 					if y >= 30 {
 						name = "rpush"
@@ -261,10 +246,6 @@ func (g *gen) write() {
 				}
 			}
 		}
-	}
-	if t == "l" && ts == "Z" && (name == "lpush" || name == "rpush") {
-		// version 0 generations of a list: same repair-path caveat
-		ts = strconv.FormatInt(g.cur, 10)
 	}
 	f := []string{ts, name}
 	for _, a := range args {
@@ -446,6 +427,26 @@ func (g *gen) grid(engines []string) {
 			g.emit("X")
 			g.observeAll()
 		}
+	}
+	// a list re-created with the generation number of its cleared predecessor: the push meets stored elements
+	// ("should not override": error, the elements written so far stay, fixListKey)
+	for ei, eng := range engines {
+		g.seq, g.step = 1000000+n, 0
+		n++
+		g.emit("NEW", "compact", eng)
+		w(base, "rpush", "t:a", "x", "y")
+		w(base, "lpop", "t:a")
+		w(base, "lclear", "t:a")
+		if ei%2 == 0 {
+			w(base, "rpush", "t:a", "a", "b")
+		} else {
+			w(base, "lpush", "t:a", "a", "b")
+		}
+		g.emit("O", "l", hx("t:a"))
+		w(base+5, "rpush", "t:a", "c")
+		g.emit("O", "l", hx("t:a"))
+		w(base+6, "lpop", "t:a")
+		g.emit("O", "l", hx("t:a"))
 	}
 	// compaction-filter probes on both sides of the lazy threshold
 	for _, eng := range engines {
